@@ -1,16 +1,16 @@
 #!/bin/sh
 # Refresh every evidence file by running each claimed check (quick tier) on /repo as it is.
-cd /verif
+cd "$(dirname "$0")/.."
 for p in $(python3 -c "import json; print(' '.join(c['property_id'] for c in json.load(open('MANIFEST.json'))['checks']))"); do
   python3 check/check.py $p --tier ${1:-quick} 2>&1 | grep -E "^(VIOLATION|KNOWN-FINDING|ERROR|C[0-9]+ tier)" | cut -c1-220
 done
 python3-vt - <<'PY'
 import json, jsonschema, glob
 sch = json.load(open('/root/.vp/EVIDENCE.schema.json'))
-for f in sorted(glob.glob('/verif/evidence/*.json')):
+for f in sorted(glob.glob('evidence/*.json')):
     e = json.load(open(f))
     jsonschema.validate(e, sch)
     c = e['coverage']
     assert c['obligations'] == c['discharged'], (f, c['obligations'], c['discharged'])
-print('evidence files valid:', len(glob.glob('/verif/evidence/*.json')))
+print('evidence files valid:', len(glob.glob('evidence/*.json')))
 PY
